@@ -262,6 +262,44 @@ def run(prog: Program) -> Results:
     for _f in _sub.findings:
         if _f.rule == "R-C04-4":
             res.add("R-C15-3", _f.key, _f.where, _f.message)
+    # ---------------------------------------------------------------- R-C15-4 nothing one-shot, nothing shared is put into a document
+    from sa import lints
+    from sa.effects import memoised
+    r4 = res.rule("R-C15-4", "what is stored in a document can be read any number of times and belongs to that document: no lazy "
+                  "iterator (map/filter/zip/reversed/generator) is stored in a field, layer dictionary or constructor argument; no "
+                  "from_cst returns a module-level instance (the parser writes trivia into what it returns); no memoised function "
+                  "reads a file or a context variable (its answer would depend on when it was first asked)", floor=100)
+    module_instances = {}
+    for mod, assigns in prog.module_assigns.items():
+        for name, v in assigns.items():
+            if isinstance(v, ast.Call) and isinstance(v.func, ast.Name) and v.func.id in prog.classes and prog.fields(v.func.id):
+                module_instances[name] = (mod, v.func.id)
+    for f in prog.all_functions():
+        if f.module.endswith("color.py"):
+            continue
+        r4.instances += 1
+        probs = []
+        for x in lints.stored_lazy_iterators(f):
+            probs.append((x, "lazy iterator stored", f"`{norm(x)[:50]}` is consumed by its first reader: the first rebuild after the edit is right, every later "
+                          f"rebuild (or edit) sees it empty — a let layer silently disappears"))
+        if f.name == "from_cst":
+            for rt in walk_no_nested(f.node):
+                if isinstance(rt, ast.Return) and isinstance(rt.value, ast.Name) and rt.value.id in module_instances:
+                    probs.append((rt, "from_cst returns a shared instance", f"`{norm(rt)}` hands out the module-level {module_instances[rt.value.id][1]} instance: the "
+                                  f"parser assigns `.before` / appends to `.after` of what from_cst returns, so comments of one document show up "
+                                  f"in every other document (and thread) that contains the same construct"))
+        if memoised(f):
+            reads = [c for c in ast.walk(f.node) if isinstance(c, ast.Call) and isinstance(c.func, ast.Attribute)
+                     and c.func.attr in ("read_text", "read_bytes", "read", "open", "get", "stat", "exists")
+                     and (c.func.attr != "get" or norm(c.func.value).isupper() or norm(c.func.value).startswith("_"))]
+            reads += [c for c in ast.walk(f.node) if isinstance(c, ast.Call) and isinstance(c.func, ast.Name) and c.func.id == "open"]
+            for c in reads:
+                probs.append((c, "memoised function reads external state", f"`{norm(c)[:50]}` inside a memoised function: the first answer is kept "
+                              f"although the file / context it was read from may have changed (a file damaged after the first parse still "
+                              f"appears valid)"))
+        r4.ob(not probs, None if not probs else {"site": f.key, "problems": [p_[1] for p_ in probs]})
+        for node, what, msg in probs:
+            res.add("R-C15-4", (f.key, what), f.loc(node), f"{f.key}: {msg}")
     res.tables.append(f"sa/rules/c15.py:STATE_WRITERS ({len(STATE_WRITERS)} confined objects, one reason each)")
     res.assumptions = ["interleavings themselves are not explored; confinement (thread-local, context variables, identity-validated "
                        "registry under the GIL) is the argument"]
